@@ -51,6 +51,7 @@ type Obl struct {
 	Time   float64
 	Output string
 	Cached bool
+	batchMiss bool // undecided by the z3-new batch pass within its per-query budget
 	Cross  string // thorough tier: verdict of a solver of the other family on the same query ("" = not run)
 	Inputs []ModelInput // names of symbols worth printing from a model
 }
